@@ -540,7 +540,12 @@ def close_path(ck):
                 kinds.add((kind, rec))
         for n in errs:
             v = n.ast.value
-            ok = q.dotted(v) in heps or (isinstance(v, ast.Subscript) and q.dotted(v.value) in (heps | sysvars) and q.is_const(v.slice, 1))
+            def _is_exc(v_):
+                if isinstance(v_, ast.IfExp):
+                    return _is_exc(v_.body) and _is_exc(v_.orelse)
+                return q.dotted(v_) in heps or (isinstance(v_, ast.Subscript) and q.dotted(v_.value) in (heps | sysvars) and q.is_const(v_.slice, 1))
+
+            ok = _is_exc(v)
             ck.ob("C13.error-recorded", hf, n.ast, ok, "self.error is the exception itself (exc_info, exc_info[1] or sys.exc_info()[1])")
     if hosts:
         ck.floor("C13.error-recorded", n_err, 2, "assignments to self.error on the close path")
